@@ -285,6 +285,28 @@ def run_impl(exe, cases_path, n, timeout=600, env=None):
     return results[:n], aborts
 
 
+def run_impl_sharded(exe, cases, outdir, shards=8, timeout=900, env=None):
+    """run the harness over `shards` parallel processes (cases are independent)"""
+    from concurrent.futures import ThreadPoolExecutor
+    n = len(cases)
+    shards = max(1, min(shards, n))
+    size = (n + shards - 1) // shards
+    parts = [cases[i:i + size] for i in range(0, n, size)]
+    paths = []
+    for j, part in enumerate(parts):
+        pth = os.path.join(outdir, "shard_%d.txt" % j)
+        write_cases(pth, part)
+        paths.append(pth)
+    with ThreadPoolExecutor(max_workers=len(parts)) as ex:
+        res = list(ex.map(lambda t: run_impl(exe, t[0], len(t[1]), timeout=timeout, env=env),
+                          zip(paths, parts)))
+    out, aborts = [], 0
+    for r, a in res:
+        out += r
+        aborts += a
+    return out, aborts
+
+
 def run_model(name, cases_path, timeout=600):
     exe = os.path.join(TARGET, "model_%s" % name)
     rc, out = sh("%s < %s" % (exe, cases_path), timeout)
